@@ -116,6 +116,26 @@ def run(rep, facts, tier):
             okn = bm[0] == 'call' and bm[1].endswith('from_elem') and bm[2][1] == ('const', 'int', 0) and has_call(bm, 'total_number_of_fragments') and has_call(fc, 'total_number_of_fragments')
     rep.check(okn, 'R05.4', 'AssemblyBuffer::new/bitmap-size', 'bitmap = total_number_of_fragments() bits, all false',
               'the received-fragment bitmap is not created with one cleared bit per fragment of the sample', nb.where())
+    # the buffer the fragments are copied into is data_size bytes long from the start (mutation triage: without the resize the buffer has capacity but length 0, the copy
+    # window R05.12 clamps to it, every fragment copies nothing and the sample completes empty)
+    okb = False
+    whyb = 'buffer_bytes is not built by with_capacity/new + resize(data_size, _) or zeroed(data_size)'
+    for bb, si, st in nb.statements():
+        if st['s'] == 'assign' and st['rv']['r'] == 'agg' and strip_generics(st['rv'].get('adt', '')).endswith('AssemblyBuffer'):
+            f = st['rv']['fields']
+            buf = ogn.of_operand(st['rv']['ops'][f.index('buffer_bytes')], bb, si)
+            Pn = Pos(nb)
+            sized = []
+            for cb, ct in nb.calls():
+                cr = callee_res(ct)
+                if cr.endswith(('BytesMut::resize', 'BytesMut::zeroed', 'Vec::<T, A>::resize')):
+                    a = ogn.of_operand(ct['args'][1 if cr.endswith('resize') else 0], cb, 'term')
+                    if has_field(a, 'data_size') and not term_has(a, lambda x: x[0] == 'bin'):
+                        sized.append((cb, 'term'))
+            okb = bool(sized) and Pn.every_path_passes(None, (bb, si), via_pos=sized, from_entry=True) and \
+                (term_has(buf, lambda x: x[0] == 'mutated') or term_has(buf, lambda x: x[0] == 'call' and x[1].endswith('zeroed')))
+    rep.check(okb, 'R05.4', 'AssemblyBuffer::new/buffer-length', 'buffer_bytes.len() = data_size before any fragment is placed',
+              'the assembly buffer is not created data_size bytes long (%s): fragments are copied into a shorter buffer and the sample completes truncated or empty' % whyb, nb.where())
     # ---- R05.2 reader side
     hd = fx.find('rtps::reader::Reader::handle_datafrag_msg')
     rep.analysed(hd)
